@@ -83,18 +83,21 @@ def run_mode(factory, mode, q):
         r = factory(True)
     else:
         r = factory(True)
-        list(r)
+        try:
+            list(r)
+        except Exception:
+            pass                      # shows up in the query's own answer
     return impl_query(r, q), r
 
 
 def correspondence(ctx):
     basecorr.run(ctx)
     rng = ctx.subrng("corr")
-    fams = rule_family(ctx, rng, ctx.budget(6, 40))
+    fams = rule_family(ctx, rng, ctx.budget(6, 16))
     reqs, exp, meta = [], [], []
     for idx, (label, fac) in enumerate(fams):
         L = ints(list(fac(False)))
-        full = label.startswith("stepped") and len(L) in ((0, 1, 5, 10, 12) if ctx.tier == "thorough" or ctx.escalated else (1, 5, 12))
+        full = label.startswith("stepped") and len(L) in ((1, 5, 10, 12) if ctx.tier == "thorough" or ctx.escalated else (1, 5, 12))
         for q in query_pool(rng, L, full):
             for mode in MODES:
                 out, _ = run_mode(fac, mode, q)
@@ -114,13 +117,13 @@ def correspondence(ctx):
     except Exception:
         c11 = None
     if c11 is not None and hasattr(c11, "history_correspondence"):
-        c11.history_correspondence(ctx, rng, ctx.budget(300, 3000))
+        c11.history_correspondence(ctx, rng, ctx.budget(300, 1500))
 
 
 def oracle(ctx):
     """every query on the implementation against Python list semantics of list(uncached rule)"""
     rng = ctx.subrng("oracle")
-    fams = rule_family(ctx, rng, ctx.budget(10, 80))
+    fams = rule_family(ctx, rng, ctx.budget(10, 30))
     seeds = [m["input"] for m in ctx.mismatches if isinstance(m.get("input"), dict)]
     if seeds:
         ctx.note("oracle seeded with %d correspondence mismatches (same generators, thorough budget)" % len(seeds))
@@ -139,7 +142,7 @@ def oracle(ctx):
                     ctx.violation("%s on %s (cache %s): implementation %s, list semantics %s" % (q_wire(q), label, mode, got, want),
                                   {"kind": "query", "L": L, "q": list(q), "mode": mode, "label": label}, {"impl": got, "list": want})
         # histories: random query order on ONE cached object
-        for _ in range(ctx.budget(4, 20)):
+        for _ in range(ctx.budget(4, 10)):
             r = fac(True)
             hist = []
             for _ in range(rng.randint(2, 8)):
